@@ -41,6 +41,7 @@ type World struct {
 	loadErrs  []string
 	findings  map[string]bool
 	names     map[*ssa.Function]map[string]ssa.Value
+	mutGlobals map[*ssa.Global]bool
 }
 
 func loadWorld(repo string) (*World, error) {
@@ -339,6 +340,50 @@ func (w *World) localNames(fn *ssa.Function) map[string]ssa.Value {
 	}
 	w.names[fn] = m
 	return m
+}
+
+// mutableGlobals: package-level variables written outside their package initialiser (directly, or through
+// a map update / element store on the value they hold).  Reads of such variables are havocked.
+func (w *World) mutableGlobal(gl *ssa.Global) bool {
+	if w.mutGlobals == nil {
+		w.mutGlobals = map[*ssa.Global]bool{}
+		for _, f := range w.allFuncs {
+			if f.Name() == "init" && f.Synthetic != "" {
+				continue
+			}
+			for _, b := range f.Blocks {
+				for _, in := range b.Instrs {
+					var target ssa.Value
+					switch x := in.(type) {
+					case *ssa.Store:
+						target = x.Addr
+					case *ssa.MapUpdate:
+						target = x.Map
+					default:
+						continue
+					}
+					for target != nil {
+						switch t := target.(type) {
+						case *ssa.Global:
+							w.mutGlobals[t] = true
+							target = nil
+						case *ssa.FieldAddr:
+							target = t.X
+						case *ssa.IndexAddr:
+							target = t.X
+						case *ssa.UnOp:
+							target = t.X
+						case *ssa.Slice:
+							target = t.X
+						default:
+							target = nil
+						}
+					}
+				}
+			}
+		}
+	}
+	return w.mutGlobals[gl]
 }
 
 // repoFunctions returns all repo functions with bodies, sorted by key.
